@@ -1744,6 +1744,21 @@ func (x *Exec) loopContract(s ast.Stmt) (*LoopContract, int) {
 			}
 		}
 	}
+	// loops bound by anchor text (robust against loops added or removed elsewhere in the function)
+	var txt string
+	for _, u := range x.cs.Units {
+		if u.PkgDir == x.uc.PkgDir && u.Func == x.uc.Func {
+			for _, lc := range u.ALoops {
+				if txt == "" {
+					txt = normWS(x.src(s))
+				}
+				if strings.HasPrefix(txt, lc.Anchor) {
+					lc.Ordinal = ord
+					return lc, ord
+				}
+			}
+		}
+	}
 	return nil, ord
 }
 
